@@ -9,30 +9,21 @@ def specCallK (cfg : Cfg) (s : Step) (k : List Step) (input : R) (own : Exec) (s
   specSteps cfg k false o.r o.inh o.subs o.invoked
 
 /-- `asyncFinish`: the outer step completes with the inner result and its own executor -/
-theorem asyncFinish_den (cfg : Cfg) (ty : Nat) (own : Exec) (k : List Step) (lazy : Bool) (ctx : Option Nat) (o : Out)
-    (hk : d10FreeSteps k = true) (ho : okOut o = true) :
+theorem asyncFinish_den (cfg : Cfg) (ty : Nat) (own : Exec) (k : List Step) (lazy : Bool) (ctx : Option Nat) (o : Out) :
     denK cfg k (asyncFinish ty own k lazy ctx o) =
-      (denK cfg [] o).map (fun o' => specSteps cfg k false o'.r own o'.subs o'.invoked)
-    ∧ okOut (asyncFinish ty own k lazy ctx o) = true := by
+      (denK cfg [] o).map (fun o' => specSteps cfg k false o'.r own o'.subs o'.invoked) := by
   cases o with
-  | done r inh c g =>
-    cases lazy <;> simp [asyncFinish, denK, specSteps, okOut]
-  | parked t g =>
-    constructor
-    · cases lazy <;>
-        simp [asyncFinish, denK, specThread, specFrames_append, specFrames]
-    · simp only [okOut, d10FreeThread, Bool.and_eq_true] at ho
-      simp [asyncFinish, okOut, d10FreeThread, d10FreeFrames_append, d10FreeFrames, ho.1.1, ho.1.2, ho.2, hk]
-  | crash g => simp [asyncFinish, denK, okOut]
+  | done r inh c g => cases lazy <;> simp [asyncFinish, denK, specSteps]
+  | parked t g => cases lazy <;> simp [asyncFinish, denK, specThread, specFrames_append, specFrames]
+  | crash g => simp [asyncFinish, denK]
 
 mutual
   theorem callStep_den (cfg : Cfg) :
       ∀ (s : Step) (k : List Step) (hd dropped : Bool) (ctx : Option Nat) (via : Option Exec) (input0 : R) (own : Exec)
-        (g : G), d10FreeStep s = true → d10FreeSteps k = true →
+        (g : G),
       denK cfg k (callStep cfg s k hd dropped ctx via input0 own g)
         = some (specCallK cfg s k (seenInput (stepType s.mode hd) dropped input0) own g.subs g.invoked)
-      ∧ okOut (callStep cfg s k hd dropped ctx via input0 own g) = true
-    | .mk id sig mode beh, k, hd, dropped, ctx, via, input0, own, g, hs, hk => by
+    | .mk id sig mode beh, k, hd, dropped, ctx, via, input0, own, g => by
       simp only [Step.mode]
       rw [callStep.eq_def]
       simp only []
@@ -42,111 +33,94 @@ mutual
         have hr := (route_call_iff sig mode hd dropped input0).1 hact
         simp only []
         cases beh with
-        | val n => simp [denK, specCallK, specCall_val, hr, okOut]
-        | res r => simp [denK, specCallK, specCall_res, hr, okOut]
-        | throw t => simp [denK, specCallK, specCall_throw, hr, okOut]
+        | val n => simp [denK, specCallK, specCall_val, hr]
+        | res r => simp [denK, specCallK, specCall_res, hr]
+        | throw t => simp [denK, specCallK, specCall_throw, hr]
         | async src lazy steps =>
-          simp only [d10FreeStep, Bool.and_eq_true] at hs
-          have hsteps : d10FreeSteps steps = true := hs.2
           simp only []
-          cases lazy with
-          | false =>
-            simp only [Bool.false_eq_true, ite_false]
-            have hsrc := startSrc_spec cfg src ctx
-              ((G.allocCore (g.invoke id ctx via) (srcCores src + steps.length)).allocFunctor (srcFunctors src + steps.length))
-            cases hst : startSrc cfg src ctx
-              ((G.allocCore (g.invoke id ctx via) (srcCores src + steps.length)).allocFunctor (srcFunctors src + steps.length)) with
+          -- the functor has built the inner pipeline; `g2` = the log after construction
+          have key : ∀ (g2 : G), g2.subs = g.subs → g2.invoked = g.invoked ++ [id] →
+              ∀ (acct : G → G), (∀ x, (acct x).subs = x.subs ∧ (acct x).invoked = x.invoked) →
+              denK cfg k (match startSrc cfg src ctx g2 with
+                | .go r0 inh0 c0 g3 =>
+                  asyncFinish (stepType mode hd) own k lazy ctx
+                    (runSteps cfg steps (src == .unit) lazy (if lazy = true then c0 else ctx) r0 inh0 g3)
+                | .wait w inh0 g3 => .parked ⟨w, inh0, steps, [⟨stepType mode hd, own, k⟩]⟩ (acct g3)
+                | .crash g3 => .crash g3)
+              = some (specCallK cfg (.mk id sig mode (.async src lazy steps)) k
+                  (seenInput (stepType mode hd) dropped input0) own g.subs g.invoked) := by
+            intro g2 hs2 hi2 acct hacct
+            have hsrc := startSrc_spec cfg src ctx g2
+            cases hst : startSrc cfg src ctx g2 with
             | go r0 inh0 c0 g3 =>
               rw [hst] at hsrc
-              simp only [allocFunctor_subs, allocCore_subs, invoke_subs, allocFunctor_invoked, allocCore_invoked,
-                invoke_invoked] at hsrc
-              have ih := runSteps_den cfg steps (src == .unit) false ctx r0 inh0 g3 hsteps
-              have hf := asyncFinish_den cfg (stepType mode hd) own k false ctx _ hk ih.2
+              rw [hs2, hi2] at hsrc
+              have ih := runSteps_den cfg steps (src == .unit) lazy (if lazy = true then c0 else ctx) r0 inh0 g3
               simp only []
-              refine ⟨?_, hf.2⟩
-              rw [hf.1, ih.1]
+              rw [asyncFinish_den, ih]
               simp [specCallK, specCall_async, hr, hsrc.1, hsrc.2]
             | wait w inh0 g3 =>
               rw [hst] at hsrc
-              simp only [allocFunctor_subs, allocCore_subs, invoke_subs, allocFunctor_invoked, allocCore_invoked,
-                invoke_invoked] at hsrc
-              obtain ⟨h1, h2, h3, h4, h5⟩ := hsrc
+              rw [hs2, hi2] at hsrc
+              obtain ⟨h1, h2, h3, h5⟩ := hsrc
               simp only []
-              constructor
-              · simp [denK, specThread, specFrames, h1, specCallK, specCall_async, hr, h2, h3, h5]
-              · simp [okOut, d10FreeThread, d10FreeFrames, h4, hsteps, hk]
+              simp [denK, specThread, specFrames, (hacct g3).1, (hacct g3).2, h1, specCallK, specCall_async, hr, h2, h3, h5]
             | crash g3 => rw [hst] at hsrc; exact hsrc.elim
+          cases lazy with
+          | false =>
+            simp only [↓reduceIte, Bool.false_eq_true]
+            exact key ((G.allocCore (g.invoke id ctx via) (srcCores src + steps.length)).allocFunctor
+              (srcFunctors src + steps.length)) (by simp) (by simp) (asyncRetAcct (stepType mode hd)) (fun x => ⟨by simp, by simp⟩)
           | true =>
-            simp only [ite_true]
-            have hready : src.isReady = true := by simpa using hs.1
-            have hsrc := enterHere_spec cfg src ctx (asyncRetAcct (stepType mode hd)
-              ((G.allocCore (g.invoke id ctx via) (srcCores src + steps.length)).allocFunctor (srcFunctors src + steps.length)))
-              hready
-            cases hst : enterHere src ctx (asyncRetAcct (stepType mode hd)
-              ((G.allocCore (g.invoke id ctx via) (srcCores src + steps.length)).allocFunctor (srcFunctors src + steps.length))) with
-            | go r0 inh0 c0 g3 =>
-              rw [hst] at hsrc
-              simp only [asyncRetAcct_subs, asyncRetAcct_invoked, allocFunctor_subs, allocCore_subs, invoke_subs,
-                allocFunctor_invoked, allocCore_invoked, invoke_invoked] at hsrc
-              have ih := runSteps_den cfg steps (src == .unit) true c0 r0 inh0 g3 hsteps
-              have hf := asyncFinish_den cfg (stepType mode hd) own k true ctx _ hk ih.2
-              simp only []
-              refine ⟨?_, hf.2⟩
-              rw [hf.1, ih.1]
-              simp [specCallK, specCall_async, hr, hsrc.1, hsrc.2]
-            | wait w inh0 g3 => rw [hst] at hsrc; exact hsrc.elim
-            | crash g3 => rw [hst] at hsrc; exact hsrc.elim
+            simp only [↓reduceIte]
+            rw [enterHere_eq]
+            exact key (asyncRetAcct (stepType mode hd) ((G.allocCore (g.invoke id ctx via) (srcCores src + steps.length)).allocFunctor
+              (srcFunctors src + steps.length))) (by simp) (by simp) (fun x => x) (fun x => ⟨rfl, rfl⟩)
       | doneException =>
         have hr' : runsOn sig (seenInput (stepType mode hd) dropped input0) = false := by
           cases h : runsOn sig (seenInput (stepType mode hd) dropped input0) with
           | false => rfl
           | true => have := (route_call_iff sig mode hd dropped input0).2 h; rw [hact] at this; cases this
         have hp := route_pass sig mode hd dropped input0 hr'
-        rw [hact] at hp; simp [denK, specCallK, specCall_skip, hr', hp, okOut]
+        rw [hact] at hp; simp [denK, specCallK, specCall_skip, hr', hp]
       | doneError =>
         have hr' : runsOn sig (seenInput (stepType mode hd) dropped input0) = false := by
           cases h : runsOn sig (seenInput (stepType mode hd) dropped input0) with
           | false => rfl
           | true => have := (route_call_iff sig mode hd dropped input0).2 h; rw [hact] at this; cases this
         have hp := route_pass sig mode hd dropped input0 hr'
-        rw [hact] at hp; simp [denK, specCallK, specCall_skip, hr', hp, okOut]
+        rw [hact] at hp; simp [denK, specCallK, specCall_skip, hr', hp]
       | doneResult =>
         have hr' : runsOn sig (seenInput (stepType mode hd) dropped input0) = false := by
           cases h : runsOn sig (seenInput (stepType mode hd) dropped input0) with
           | false => rfl
           | true => have := (route_call_iff sig mode hd dropped input0).2 h; rw [hact] at this; cases this
         have hp := route_pass sig mode hd dropped input0 hr'
-        rw [hact] at hp; simp [denK, specCallK, specCall_skip, hr', hp, okOut]
+        rw [hact] at hp; simp [denK, specCallK, specCall_skip, hr', hp]
 
   theorem runSteps_den (cfg : Cfg) :
-      ∀ (ss : List Step) (hd flow : Bool) (ctx : Option Nat) (r : R) (inh : Exec) (g : G), d10FreeSteps ss = true →
+      ∀ (ss : List Step) (hd flow : Bool) (ctx : Option Nat) (r : R) (inh : Exec) (g : G),
       denK cfg [] (runSteps cfg ss hd flow ctx r inh g) = some (specSteps cfg ss hd r inh g.subs g.invoked)
-      ∧ okOut (runSteps cfg ss hd flow ctx r inh g) = true
-    | [], hd, flow, ctx, r, inh, g, _ => by simp [runSteps, denK, specSteps, okOut]
-    | s :: ss, hd, flow, ctx, r, inh, g, h => by
-      simp only [d10FreeSteps, Bool.and_eq_true] at h
-      obtain ⟨hs, hss⟩ := h
-      have ih := fun c' r' inh' g' => runSteps_den cfg ss false flow c' r' inh' g' hss
+    | [], hd, flow, ctx, r, inh, g => by simp [runSteps, denK, specSteps]
+    | s :: ss, hd, flow, ctx, r, inh, g => by
+      have ih := fun c' r' inh' g' => runSteps_den cfg ss false flow c' r' inh' g'
       rw [runSteps.eq_def]
       simp only []
       rw [specSteps_cons, implSubmits_stepType, transferExecutorTo_eq]
       generalize hown : ownExec s.mode inh = own
       -- the common tail: continue with `ss` after the step's own cascade
-      have tail : ∀ (o : Out) (X : SOut), denK cfg ss o = some X → okOut o = true →
+      have tail : ∀ (o : Out) (X : SOut), denK cfg ss o = some X →
           denK cfg [] (match o with
             | .done r' inh' c' g' => runSteps cfg ss false flow (if flow = true then c' else ctx) r' inh' g'
-            | o => o) = some X ∧
-          okOut (match o with
-            | .done r' inh' c' g' => runSteps cfg ss false flow (if flow = true then c' else ctx) r' inh' g'
-            | o => o) = true := by
-        intro o X h1 h2
+            | o => o) = some X := by
+        intro o X h1
         cases o with
         | done r' inh' c' g' =>
           simp only [denK] at h1
           simp only []
-          rw [(ih _ r' inh' g').1]
-          exact ⟨h1, (ih _ r' inh' g').2⟩
-        | parked t g' => exact ⟨by simpa [denK] using h1, h2⟩
+          rw [ih _ r' inh' g']
+          exact h1
+        | parked t g' => simpa [denK] using h1
         | crash g' => simp [denK] at h1
       by_cases hsub : (s.mode.submits || hd) = true
       · simp only [hsub, ite_true]
@@ -155,32 +129,27 @@ mutual
         | callNow c g' =>
           rw [hsb] at hoff
           simp only []
-          have h1 := callStep_den cfg s ss hd false c (some own) r own g' hs hss
-          refine tail _ _ ?_ h1.2
-          rw [h1.1]
+          refine tail _ _ ?_
+          rw [callStep_den cfg s ss hd false c (some own) r own g']
           simp [specCallK, seenInput, isRun_stepType, hoff.1, hoff.2]
         | dropNow c g' =>
           rw [hsb] at hoff
           simp only []
-          have h1 := callStep_den cfg s ss hd true c (some own) r own g' hs hss
-          refine tail _ _ ?_ h1.2
-          rw [h1.1]
-          simp [specCallK, seenInput, Dispatch.dropInput, hoff.1, hoff.2]
+          refine tail _ _ ?_
+          rw [callStep_den cfg s ss hd true c (some own) r own g']
+          simp [specCallK, seenInput, hoff.1, hoff.2]
         | queued jid k g' =>
           rw [hsb] at hoff
           simp only []
-          constructor
-          · simp [denK, specThread, specFire, specFrames, hoff.1, hoff.2.1]
-          · simp [okOut, d10FreeThread, d10FreeWait, d10FreeFrames, hs, hss]
+          simp [denK, specThread, specFire, specFrames, hoff.1, hoff.2.1]
       · have hsub' : (s.mode.submits || hd) = false := by simpa using hsub
         have hhd : hd = false := by
           cases hd
           · rfl
           · simp at hsub'
         simp only [hsub', Bool.false_eq_true, ite_false]
-        have h1 := callStep_den cfg s ss hd false ctx none r own g hs hss
-        refine tail _ _ ?_ h1.2
-        rw [h1.1]
+        refine tail _ _ ?_
+        rw [callStep_den cfg s ss hd false ctx none r own g]
         simp [specCallK, seenInput, isRun_stepType, hhd]
 end
 
